@@ -459,6 +459,12 @@ func runC15(c *Ctx) {
 	for i := 0; i < nHist; i++ {
 		c15History(c, sh, filepath.Join(scratch, fmt.Sprintf("h%d", i)), i, fixed)
 	}
+	// the trivial crash point (no crash, just a reopen) after merges that form several groups, one of which
+	// fails: judged on the Go side only (the Coq crash model covers single-group merges)
+	nMG := c.pick(10, 80)
+	for i := 0; i < nMG; i++ {
+		c15MultiGroupMergeFault(c, filepath.Join(scratch, fmt.Sprintf("mg%d", i)), i)
+	}
 	if !immutableProbe.ok {
 		c.rep.Notes = append(c.rep.Notes, "immutable-directory faults (rename failures) not available on this platform")
 	}
@@ -767,4 +773,158 @@ func sortedIntKeys[V any](m map[int]V) []int {
 	}
 	sort.Ints(keys)
 	return keys
+}
+
+// ---------------------------------------------------------------- merges of several groups, one failing
+
+// c15FaultStore passes everything to the real FileSystemDataStore; once armed, the failAt-th Write
+// (counted over all writers from the arming on) fails after writing half of its bytes.
+type c15FaultStore struct {
+	bs.DataStore
+	armed  bool
+	failAt int
+	writes int
+	fired  bool
+}
+
+type c15FaultWriter struct {
+	io.WriteCloser
+	s *c15FaultStore
+}
+
+type c15FaultWriterAbort struct{ c15FaultWriter }
+
+func (w c15FaultWriter) Write(p []byte) (int, error) {
+	s := w.s
+	if s.armed {
+		n := s.writes
+		s.writes++
+		if n == s.failAt {
+			s.fired = true
+			k, _ := w.WriteCloser.Write(p[:len(p)/2])
+			return k, errC15Write
+		}
+	}
+	return w.WriteCloser.Write(p)
+}
+
+func (w c15FaultWriterAbort) Abort() error {
+	return w.WriteCloser.(interface{ Abort() error }).Abort()
+}
+
+func (s *c15FaultStore) CreateFile(ctx context.Context) (io.WriteCloser, []byte, error) {
+	w, p, err := s.DataStore.CreateFile(ctx)
+	if err != nil {
+		return nil, nil, err
+	}
+	fw := c15FaultWriter{WriteCloser: w, s: s}
+	if _, ok := w.(interface{ Abort() error }); ok {
+		return c15FaultWriterAbort{fw}, p, nil
+	}
+	return fw, p, nil
+}
+
+// Files of 2-3 partitions, 2-3 single-partition files each, so that one Merge call forms one group per
+// partition; a write fault somewhere in the merge (or none). Whatever Merge returns, a fresh store and
+// engine over the directory must return every acknowledged row exactly once with a nil error.
+func c15MultiGroupMergeFault(c *Ctx, dir string, idx int) {
+	defer func() {
+		if r := recover(); r != nil {
+			c.mismatch("harness-panic", fmt.Sprintf("multi-group merge scenario %d: %v", idx, r), nil)
+		}
+		os.RemoveAll(dir)
+	}()
+	ctx := context.Background()
+	os.RemoveAll(dir)
+	must(os.MkdirAll(dir, 0o755))
+	fs := bs.NewFileSystemDataStore(dir)
+	store := &c15FaultStore{DataStore: fs}
+	cfg := bs.DefaultBloomSearchEngineConfig()
+	cfg.MaxBufferedTime = time.Hour
+	cfg.RowDataCompression = []bs.CompressionType{bs.CompressionNone, bs.CompressionSnappy}[c.intn(2)]
+	cfg.PartitionFunc = func(row map[string]any) string { p, _ := row["p"].(string); return p }
+	eng, err := bs.NewBloomSearchEngine(cfg, fs, store)
+	must(err)
+	eng.Start()
+	nParts := 2 + c.intn(2)
+	acked := map[int]bool{}
+	next := 0
+	for round := 0; round < 2+c.intn(2); round++ {
+		for p := 0; p < nParts; p++ {
+			n := 1 + c.intn(3)
+			batch := make([]map[string]any, n)
+			var ids []int
+			for j := range batch {
+				batch[j] = map[string]any{"id": next, "p": fmt.Sprintf("part%d", p), "s": fmt.Sprintf("v%d", c.intn(50))}
+				ids = append(ids, next)
+				next++
+			}
+			done := make(chan error, 1)
+			must(eng.IngestRows(ctx, batch, done))
+			must(eng.Flush(ctx))
+			must(<-done)
+			for _, id := range ids {
+				acked[id] = true
+			}
+		}
+	}
+	store.armed = c.chance(0.85)
+	store.failAt = c.intn(10 * nParts)
+	_, mergeErr := eng.Merge(ctx)
+	store.armed = false
+	stopCtx, cancel := context.WithTimeout(ctx, 10*time.Second)
+	must(eng.Stop(stopCtx))
+	cancel()
+	c.dist("c15_multigroup_merge", fmt.Sprintf("groups=%d fault_fired=%v merge_err=%v", nParts, store.fired, mergeErr != nil))
+
+	st2 := bs.NewFileSystemDataStore(dir)
+	eng2, err := bs.NewBloomSearchEngine(bs.DefaultBloomSearchEngineConfig(), st2, st2)
+	must(err)
+	res, err := eng2.Query(ctx, bs.NewQuery().Build())
+	must(err)
+	got := map[int]int{}
+	for res.Next() {
+		if id, ok := res.Row()["id"].(float64); ok {
+			got[int(id)]++
+		} else {
+			got[-1]++
+		}
+	}
+	qerr := res.Err()
+	res.Close()
+	var problems []string
+	if qerr != nil {
+		problems = append(problems, "query error on the reopened directory: "+qerr.Error())
+	}
+	var missing, dup, invented []int
+	for id := range acked {
+		if got[id] == 0 {
+			missing = append(missing, id)
+		}
+	}
+	for id, n := range got {
+		if !acked[id] {
+			invented = append(invented, id)
+		}
+		if n > 1 {
+			dup = append(dup, id)
+		}
+	}
+	sort.Ints(missing)
+	sort.Ints(dup)
+	sort.Ints(invented)
+	if len(missing) > 0 {
+		problems = append(problems, fmt.Sprintf("acknowledged rows %v missing", missing))
+	}
+	if len(dup) > 0 {
+		problems = append(problems, fmt.Sprintf("rows %v returned more than once", dup))
+	}
+	if len(invented) > 0 {
+		problems = append(problems, fmt.Sprintf("rows %v were never acknowledged", invented))
+	}
+	desc := map[string]any{"kind": "multigroup-merge", "partitions": nParts, "rows": next, "fault_armed_at_write": store.failAt, "fault_fired": store.fired, "merge_err": fmt.Sprint(mergeErr)}
+	c.count([]string{"C15"}, fmt.Sprintf("mg %d %d %d %v %v", idx, nParts, next, store.fired, mergeErr != nil), store.fired, desc)
+	if len(problems) > 0 {
+		c.violation("c15-crash", fmt.Sprintf("multi-group merge %d (write fault fired=%v, Merge error=%v), then a reopen: %s", idx, store.fired, mergeErr != nil, strings.Join(problems, "; ")), desc)
+	}
 }
